@@ -1,5 +1,190 @@
-(* C13 - placeholder while the check is being built *)
-From Coq Require Import List ZArith.
-Theorem C13_placeholder : True.
-Proof. exact I. Qed.
-Print Assumptions C13_placeholder.
+(* C13 - band data-rate, channel-plan and max-payload tables are closed and
+   consistent.
+   Statement file: each theorem is closed by [exact] of a lemma proved in
+   theories/Band/TablesProofs.v (Rx1Proofs.v), followed by Print Assumptions.
+   [band_configs] = the tables of band.GetConfig(name, repeater, dwell) for the 14
+   band names x {false,true} x {no limit, 400 ms}, dumped from the live code on
+   every run (LWGen.BandGen); [get_*] = the model of the lookup code
+   (Band/Lookup.v); [dr_defined*], [spec_*], [region_of], [version_query_sane] = the
+   specification (Band/Rx1Spec.v, Band/TablesSpec.v, Band/Regional.v);
+   [c13_known_zero_cells], [c12_known_cells] = the recorded findings
+   (known/C13.json, known/C12.json -> LWGen.KnownGen).
+   Version / revision arguments range over ALL strings, data-rate indices over all of Z. *)
+From Coq Require Import List ZArith Bool String.
+From LW Require Import Base.Outcome Band.Types Band.Lookup Band.Regional Band.Rx1Spec Band.TablesSpec
+     Band.Rx1Checks Band.Rx1BaseProofs Band.TablesChecks Band.TablesProofs.
+From LWGen Require Import BandGen KnownGen.
+Import ListNotations.
+Open Scope Z_scope.
+
+(* ---- closure: every data-rate index the band refers to is defined ------------- *)
+
+(* channel DR ranges (uplink channels: defined for uplink; downlink channels: defined for
+   downlink), the enabled uplink data-rates, the CFList DR range *)
+Theorem C13_closure_channels : forall c, In c band_configs ->
+  let t := c_tab c in
+  (forall ch, In ch (t_up t) -> ch_min ch <= ch_max ch /\
+              forall d, ch_min ch <= d <= ch_max ch -> dr_defined_up t d = true)
+  /\ (forall ch, In ch (t_down t) -> ch_min ch <= ch_max ch /\
+                 forall d, ch_min ch <= d <= ch_max ch -> dr_defined_down t d = true)
+  /\ (forall d, In d (get_enabled_uplink_data_rates t) -> dr_defined_up t d = true)
+  /\ (t_extra t = true -> t_cfmin t <= t_cfmax t /\
+      forall d, t_cfmin t <= d <= t_cfmax t -> dr_defined_up t d = true).
+Proof. exact closure. Qed.
+Print Assumptions C13_closure_channels.
+
+(* RX1 results (all integer arguments) - except the cells recorded under C12-3 / C13-3 *)
+Theorem C13_closure_rx1 : forall c, In c band_configs -> forall dr off r : Z,
+  get_rx1_dr c dr off = Ok r ->
+  dr_defined_down (c_tab c) r = true \/ In (c_name c, dr, off) c12_known_cells.
+Proof. exact rx1_defined. Qed.
+Print Assumptions C13_closure_rx1.
+
+Theorem C13_closure_rx1_refuted : forall name dr off, In (name, dr, off) c12_known_cells ->
+  exists c r, In c band_configs /\ c_name c = name /\ get_rx1_dr c dr off = Ok r
+              /\ dr_defined_down (c_tab c) r = false.
+Proof. exact rx1_known_refuted. Qed.
+Print Assumptions C13_closure_rx1_refuted.
+
+(* RX2 default data-rate *)
+Theorem C13_closure_rx2 : forall c, In c band_configs ->
+  get_defaults c = c_defaults c /\ dr_defined_down (c_tab c) (d_rx2_dr (get_defaults c)) = true.
+Proof.
+  intros c Hc. destruct (region_known c Hc) as [reg Hreg].
+  destruct (rx2_defaults c Hc reg Hreg) as [H1 [_ H3]]. now split.
+Qed.
+Print Assumptions C13_closure_rx2.
+
+(* ---- index <-> parameters ------------------------------------------------------- *)
+
+(* looking a defined data-rate up by its parameters in a direction it supports returns
+   the same index *)
+Theorem C13_dr_roundtrip : forall c, In c band_configs -> forall dr d,
+  get_data_rate (c_tab c) dr = Ok d ->
+  (dr_up d = true -> get_data_rate_index (c_tab c) true d = Ok dr)
+  /\ (dr_down d = true -> get_data_rate_index (c_tab c) false d = Ok dr).
+Proof. exact dr_roundtrip. Qed.
+Print Assumptions C13_dr_roundtrip.
+
+(* the Go code ranges over a map; for ANY query parameters at most one index can match
+   in a given direction, so the iteration order cannot change the result *)
+Theorem C13_dr_index_order_irrelevant : forall c, In c band_configs -> forall uplink q i j,
+  In i (data_rate_matches (c_tab c) uplink q) -> In j (data_rate_matches (c_tab c) uplink q) -> i = j.
+Proof. exact dr_index_order_irrelevant. Qed.
+Print Assumptions C13_dr_index_order_irrelevant.
+
+(* ---- max payload sizes ------------------------------------------------------------ *)
+
+(* under latest/latest every defined data-rate has a size *)
+Theorem C13_latest_total : forall c, In c band_configs -> forall dr,
+  dr_defined (c_tab c) dr = true -> exists s, get_max_payload (c_tab c) latest latest dr = Ok s.
+Proof. exact latest_total. Qed.
+Print Assumptions C13_latest_total.
+
+(* unknown version / revision strings resolve to the latest table - any tables, any strings *)
+Theorem C13_unknown_version_is_latest : forall t ver rev dr,
+  sfind ver (t_maxpl t) = None -> get_max_payload t ver rev dr = get_max_payload t latest rev dr.
+Proof. exact max_payload_unknown_version. Qed.
+Print Assumptions C13_unknown_version_is_latest.
+
+Theorem C13_unknown_revision_is_latest : forall t ver rev dr,
+  (forall revmap, sfind_or_latest ver (t_maxpl t) = Some revmap -> sfind rev revmap = None) ->
+  get_max_payload t ver rev dr = get_max_payload t ver latest dr.
+Proof. exact max_payload_unknown_revision. Qed.
+Print Assumptions C13_unknown_revision_is_latest.
+
+Theorem C13_max_payload_no_panic : forall t ver rev dr, get_max_payload t ver rev dr <> Panic.
+Proof. exact max_payload_no_panic. Qed.
+Print Assumptions C13_max_payload_no_panic.
+
+(* every size the lookup can return (all version / revision strings, all integers)
+   satisfies M = N + 8 with 0 <= N <= 242 - except the recorded (0,0) cells *)
+Theorem C13_size_well_formed : forall c, In c band_configs -> forall ver rev dr m n,
+  get_max_payload (c_tab c) ver rev dr = Ok (m, n) ->
+  (m = n + 8 /\ 0 <= n <= 242)
+  \/ (m = 0 /\ n = 0 /\ In (c_name c, c_dwell c, dr) c13_known_zero_cells).
+Proof. exact max_payload_size_wf. Qed.
+Print Assumptions C13_size_well_formed.
+
+(* ... and every LISTED size, reachable or not *)
+Theorem C13_listed_size_well_formed : forall c, In c band_configs -> forall st dr m n,
+  In st (all_size_tables (c_tab c)) -> In (dr, (m, n)) st ->
+  (m = n + 8 /\ 0 <= n <= 242)
+  \/ (m = 0 /\ n = 0 /\ In (c_name c, c_dwell c, dr) c13_known_zero_cells).
+Proof. exact listed_size_wf. Qed.
+Print Assumptions C13_listed_size_well_formed.
+
+(* each recorded (0,0) cell is a real violation of M = N + 8: the lookup returns it *)
+Theorem C13_size_well_formed_refuted : forall name dwell dr, In (name, dwell, dr) c13_known_zero_cells ->
+  exists c, In c band_configs /\ c_name c = name /\ c_dwell c = dwell
+            /\ get_max_payload (c_tab c) latest latest dr = Ok (0, 0).
+Proof. exact zero_cells_refuted. Qed.
+Print Assumptions C13_size_well_formed_refuted.
+
+(* repeater-compatible sizes never exceed the non-repeater ones: same band, same dwell
+   time, any revision string, any version string that is not a revision name *)
+Theorem C13_repeater_le_non_repeater : forall cr cn, In cr band_configs -> In cn band_configs ->
+  c_name cr = c_name cn -> c_dwell cr = c_dwell cn -> c_rep cr = true -> c_rep cn = false ->
+  forall ver rev dr m n, version_query_sane ver = true ->
+  get_max_payload (c_tab cr) ver rev dr = Ok (m, n) ->
+  exists m' n', get_max_payload (c_tab cn) ver rev dr = Ok (m', n') /\ m <= m' /\ n <= n'.
+Proof. exact repeater_le_non_repeater. Qed.
+Print Assumptions C13_repeater_le_non_repeater.
+
+(* sizes never shrink as the spreading factor decreases at equal bandwidth (LoRa data-rates
+   usable in a common direction, any version / revision strings) *)
+Theorem C13_sf_monotone : forall c, In c band_configs -> forall ver rev dr1 dr2 s1 s2 d1 d2,
+  get_max_payload (c_tab c) ver rev dr1 = Ok s1 ->
+  get_max_payload (c_tab c) ver rev dr2 = Ok s2 ->
+  zfind dr1 (t_drs (c_tab c)) = Some d1 -> zfind dr2 (t_drs (c_tab c)) = Some d2 ->
+  is_lora d1 = true -> is_lora d2 = true -> dr_bw d1 = dr_bw d2 -> share_direction d1 d2 = true ->
+  dr_sf d2 < dr_sf d1 ->
+  fst s1 <= fst s2 /\ snd s1 <= snd s2.
+Proof. exact sf_monotone. Qed.
+Print Assumptions C13_sf_monotone.
+
+(* ---- Regional Parameters values ------------------------------------------------------ *)
+
+(* data-rate definitions (incl. direction), default uplink / downlink channels (frequency,
+   DR range, enabled, not custom), TX power step of -2 dB per index; RX2 defaults *)
+Theorem C13_regional_parameters : forall c, In c band_configs ->
+  forall reg, region_of (c_name c) = Some reg ->
+  let t := c_tab c in
+  t_drs t = spec_data_rates reg
+  /\ map chan3_of (t_up t) = spec_uplink_channels reg
+  /\ map chan3_of (t_down t) = spec_downlink_channels reg
+  /\ (forall ch, In ch (t_up t ++ t_down t) -> ch_enabled ch = true /\ ch_custom ch = false)
+  /\ (forall i v, get_tx_power_offset t i = Ok v -> v = - 2 * i).
+Proof. exact regional. Qed.
+Print Assumptions C13_regional_parameters.
+
+(* max-payload VALUES, for what was transcribed with certainty: EU868 and US915 under
+   LoRaWAN 1.0.2 rev A/B, 1.0.3 rev A, 1.1 rev A/B (Regional.spec_max_payload) *)
+Theorem C13_max_payload_values : forall c, In c band_configs -> forall reg, region_of (c_name c) = Some reg ->
+  forall ver rev dr s, spec_max_payload reg (c_rep c) ver rev dr = Some s ->
+  get_max_payload (c_tab c) ver rev dr = Ok s.
+Proof. exact max_payload_values. Qed.
+Print Assumptions C13_max_payload_values.
+
+Theorem C13_rx2_defaults : forall c, In c band_configs -> forall reg, region_of (c_name c) = Some reg ->
+  get_defaults c = c_defaults c /\ get_defaults c = spec_defaults reg
+  /\ dr_defined_down (c_tab c) (d_rx2_dr (get_defaults c)) = true.
+Proof. exact rx2_defaults. Qed.
+Print Assumptions C13_rx2_defaults.
+
+(* non-vacuity *)
+Example C13_example :
+  List.length band_configs = 56%nat
+  /\ (exists c, In c band_configs /\ c_name c = "EU868"%string /\ c_rep c = false
+                /\ get_max_payload (c_tab c) "1.0.2" "B" 3 = Ok (123, 115)
+                /\ get_max_payload (c_tab c) "no such version" "nor revision" 3 = Ok (123, 115)
+                /\ get_max_payload (c_tab c) "1.0.2" "B" 12 = Err
+                /\ get_data_rate_index (c_tab c) true (lora false false 7 250) = Ok 6
+                /\ dr_defined (c_tab c) 11 = true).
+Proof.
+  assert (L : List.length band_configs = 56%nat) by (vm_compute; reflexivity).
+  pose (d := mkCfg "" false false KEU868 false 0 "" (mkDefaults 0 0 0 0 0 0) (mkTables false 0 0 [] [] [] [] [] [])).
+  split; [exact L|].
+  exists (nth 32 band_configs d). split; [apply nth_In; rewrite L; repeat constructor|].
+  vm_compute. repeat split; reflexivity.
+Qed.
